@@ -5,6 +5,7 @@ namespace vh {
 
 Log LOG;
 Capture CAP;
+Worker& WORKER = *new Worker;   // never destroyed: its thread waits on the condition variable for the life of the process
 
 // ---------------------------------------------------------------- API table
 template <class S, int N> struct FnS;
